@@ -39,6 +39,11 @@ def one(name):
             fails = [l for l in s.stdout.split("\n") if l.startswith("FAIL") or l.startswith("--- FAIL")]
             res["suite"] = "pass" if s.returncode == 0 else "FAIL: " + "; ".join(fails[:4])
         ids = [name.split("-")[0]] if checks_opt == "own" else checks_opt.split(",")
+        try:
+            extra = json.load(open(os.path.join(V, "seeded", name, "meta.json"))).get("also_checks", [])
+            ids += [c for c in extra if c not in ids and checks_opt == "own"]
+        except Exception:
+            pass
         sd = tempfile.mkdtemp(prefix="vf-sweep-ev-", dir="/tmp")
         res["checks"] = {}
         for cid in ids:
